@@ -27,7 +27,7 @@ type C20Case struct {
 }
 
 var profileC20 = []kindW{{"mocksend", 3}, {"nftsend", 4}, {"mtsend", 4}, {"round", 6}, {"flow", 4}, {"recv", 2}, {"ack", 2}, {"clean", 2}, {"cleanflow", 2},
-	{"replay", 2}, {"update", 1}, {"nftmint", 1}, {"mtmint", 1}, {"nftxfer", 1}, {"bscupd", 7}, {"ethupd", 5}, {"rulestx", 1}, {"hostile", 1}}
+	{"replay", 2}, {"update", 1}, {"nftmint", 1}, {"mtmint", 1}, {"nftxfer", 1}, {"bscupd", 7}, {"ethupd", 5}, {"rulestx", 2}, {"rulesdiscard", 2}, {"hostile", 1}}
 
 func genC20(t *rapid.T) C20Case {
 	return C20Case{N: rapid.IntRange(2, 3).Draw(t, "n"), Ops: rapid.SliceOfN(opGenAB(profileC20, 7), 10, 45).Draw(t, "ops")}
@@ -45,7 +45,11 @@ type c20Run struct {
 }
 
 // runC20 executes the case on a fresh world and returns per-block digests of everything observable.
-func runC20(c C20Case) (*c20Run, *sim.Violation) {
+func runC20(c C20Case) (*c20Run, *sim.Violation) { return runC20R(c, 0) }
+
+// runC20R executes the case; restartEvery > 0 additionally restarts one chain (a fresh application object over the
+// same committed database) after every restartEvery-th operation, which no execution may be able to notice.
+func runC20R(c C20Case, restartEvery int) (*c20Run, *sim.Violation) {
 	ethtypes.SkipSealCheck = true
 	defer func() { ethtypes.SkipSealCheck = false }()
 	n := c.N
@@ -70,14 +74,18 @@ func runC20(c C20Case) (*c20Run, *sim.Violation) {
 	if n < 3 {
 		prefix = prefix[:4]
 	}
-	for _, op := range append(append(tokenPreamble(n), prefix...), c.Ops...) {
+	for i, op := range append(append(tokenPreamble(n), prefix...), c.Ops...) {
+		if restartEvery > 0 && i%restartEvery == restartEvery-1 {
+			w.Chains[w.Order[(i/restartEvery)%len(w.Order)]].Restart()
+			labels["restart"]++
+		}
 		switch op.K {
 		case "bscupd":
 			fc.bscUpdate(op)
 		case "ethupd":
 			fc.ethUpdate(op)
 		case "rulestx":
-			s.Apply(sim.Op{K: "rules", A: op.A, B: op.B})
+			s.Apply(sim.Op{K: "rules", A: op.A, B: op.B, U: op.U})
 		default:
 			s.Apply(op)
 		}
@@ -148,9 +156,9 @@ func checkC20(c C20Case, col *Collector) outcome {
 		return outcome{V: v}
 	}
 	col.AddLabels(first.Labels)
-	reps := 2
+	reps, restarts := 1, []int{3}
 	if os.Getenv("VERIF_TIER") == "thorough" {
-		reps = 5
+		reps, restarts = 5, []int{3, 7}
 	}
 	for i := 0; i < reps; i++ {
 		again, v := runC20(c)
@@ -159,6 +167,17 @@ func checkC20(c C20Case, col *Collector) outcome {
 		}
 		if d := diffRuns(first, again); d != "" {
 			return outcome{V: &sim.Violation{Property: "C20", Sig: "in-process-re-execution-differs", Msg: fmt.Sprintf("execution %d of the same history differs from the first: %s", i+2, d)}}
+		}
+	}
+	// the same history with node restarts in between: nothing an application keeps in memory may matter
+	for _, every := range restarts {
+		again, v := runC20R(c, every)
+		if v != nil {
+			return outcome{V: v}
+		}
+		col.Label("restart-variant-compared")
+		if d := diffRuns(first, again); d != "" {
+			return outcome{V: &sim.Violation{Property: "C20", Sig: "restart-changes-execution", Msg: fmt.Sprintf("the same history with one chain restarted after every %d operations differs: %s", every, d)}}
 		}
 	}
 	// a child process with a different environment
@@ -219,6 +238,6 @@ func TestC20Child(t *testing.T) {
 
 func TestC20(t *testing.T) {
 	runProp(t, "C20",
-		"case = a history on 2-3 chains (10-45 ops): transfers and mock packets over direct and relayed routes, every relay message type incl. cleans and replays, rule changes, hostile packet data, Tendermint client updates, MsgUpdateClient for a BSC client (Parlia chain of 5+ validators, epoch 6, validator-set changes, one in five headers invalid) and for an ETH client (synthetic children, seal hook on; one in five invalid); the history is executed on a fresh world, then again 2x (5x in the thorough tier) in the same process and once in a child process with different TMPDIR, TZ, GOMAXPROCS and GOGC; oracle = per chain and block the digest of (height, block time, tx bytes, app hash, full ExecTxResult bytes: code, log, events, gas) must be identical across all executions; non-trivial = a history with a BSC validator-set change, an accepted ETH update and a relayed packet that was processed",
+		"case = a history on 2-3 chains (10-45 ops): transfers and mock packets over direct and relayed routes, every relay message type incl. cleans and replays, rule changes, hostile packet data, Tendermint client updates, MsgUpdateClient for a BSC client (Parlia chain of 5+ validators, epoch 6, validator-set changes, one in five headers invalid) and for an ETH client (synthetic children, seal hook on; one in five invalid); rule changes executed on a discarded branch of the state (as the first message of a failing proposal is); the history is executed on a fresh world, then again in the same process (5x in the thorough tier), with node restarts (a fresh application object over the same database after every 3rd operation; thorough: also every 7th) and once in a child process with different TMPDIR, TZ, GOMAXPROCS and GOGC; oracle = per chain and block the digest of (height, block time, tx bytes, app hash, full ExecTxResult bytes: code, log, events, gas) must be identical across all executions; non-trivial = a history with a BSC validator-set change, an accepted ETH update and a relayed packet that was processed",
 		genC20, checkC20)
 }
